@@ -74,6 +74,7 @@ theorem ysR_mode : ∀ (y : Ys) (s : St), (ysR y s).2.mode = s.mode
   | .sub _, s => by simp [ysR]
   | .pval y, s => by simp only [ysR]; exact ysR_mode y s
   | .ofut b _, s => by cases b <;> simp [ysR]
+  | .gco y, s => by simp only [ysR]; exact ysR_mode y s
 theorem yslR_mode : ∀ (l : YsL) (s : St), (yslR l s).2.mode = s.mode
   | .nil, s => by simp [yslR]
   | .cons y l, s => by
@@ -146,6 +147,11 @@ theorem resolveA_mode : ∀ (y : Ys) (s : St), (resolveA y s).2.mode = s.mode
     · simp only [Bool.false_eq_true, if_false]; rw [resolveA_mode y s, hm]
     · simp [hm]
   | .ofut b _, s => by cases b <;> simp [resolveA]
+  | .gco y, s => by
+    unfold resolveA
+    cases hm : s.mode
+    · simp only [Bool.false_eq_true, if_false]; rw [resolveA_mode y s, hm]
+    · simp [hm]
 theorem gatherA_mode : ∀ (l : YsL) (s : St), (gatherA l s).2.mode = s.mode
   | .nil, s => by simp [gatherA]
   | .cons y l, s => by
@@ -225,6 +231,7 @@ theorem ysR_noB : ∀ (y : Ys) (s : St), y.noRaiseB = true → (ysR y s).1.noB =
   | .sub _, _, _ => by simp [ysR, Out.noB, Err.isBase]
   | .pval y, s, hn => by simp only [Ys.noRaiseB] at hn; simp only [ysR]; exact ysR_noB y s hn
   | .ofut b _, _, _ => by cases b <;> simp [ysR, Out.noB, Err.isBase]
+  | .gco y, s, hn => by simp only [Ys.noRaiseB] at hn; simp only [ysR]; exact ysR_noB y s hn
 theorem yslR_noB : ∀ (l : YsL) (s : St), l.noRaiseB = true → (yslR l s).1.noB = true
   | .nil, _, _ => by simp [yslR, OutL.noB]
   | .cons y l, s, hn => by
@@ -304,6 +311,12 @@ theorem resolveA_noB : ∀ (y : Ys) (s : St), y.noRaiseB = true → (resolveA y 
     · simp only [Bool.false_eq_true, if_false]; exact resolveA_noB y s hn
     · simp [Out.noB, Err.isBase]
   | .ofut b _, _, _ => by cases b <;> simp [resolveA, Out.noB, Err.isBase]
+  | .gco y, s, hn => by
+    simp only [Ys.noRaiseB] at hn
+    unfold resolveA
+    cases hm : s.mode
+    · simp only [Bool.false_eq_true, if_false]; exact resolveA_noB y s hn
+    · simp [Out.noB, Err.isBase]
 theorem gatherA_noB : ∀ (l : YsL) (s : St), l.noRaiseB = true → (gatherA l s).1.noB = true
   | .nil, _, _ => by simp [gatherA, OutL.noB]
   | .cons y l, s, hn => by
@@ -422,6 +435,7 @@ theorem resolveA_eq_ysR : ∀ (y : Ys) (s s' : St),
   | .sub _, _, _, _, _, hr, _, _ => by simp [Ys.plainY] at hr
   | .pval _, _, _, _, _, hr, _, _ => by simp [Ys.plainY] at hr
   | .ofut b _, _, _, _, _, _, _, _ => by cases b <;> simp [resolveA, ysR]
+  | .gco _, _, _, _, _, hr, _, _ => by simp [Ys.plainY] at hr
 theorem gatherA_eq_yslR : ∀ (l : YsL) (s s' : St),
     s.mode = true → s'.mode = false → l.plainY = true → l.noSync = true → SafeL l →
     (gatherA l s).1 = (yslR l s').1
@@ -635,6 +649,7 @@ theorem ysR_good : ∀ (y : Ys) (s : St), s.mode = false →
   | .sub _, s, _ => by simp only [ysR, Ys.labelsR]; exact ⟨rfl, Ext.refl _ s⟩
   | .pval y, s, hm => by simp only [ysR, Ys.labelsR]; exact ysR_good y s hm
   | .ofut b _, s, _ => by cases b <;> (simp only [ysR, Ys.labelsR]; exact ⟨rfl, Ext.refl _ s⟩)
+  | .gco y, s, hm => by simp only [ysR, Ys.labelsR]; exact ysR_good y s hm
 theorem yslR_good : ∀ (l : YsL) (s : St), s.mode = false →
     (yslR l s).1.fine = true ∧ Ext evOkR (YsL.labelsR l) s (yslR l s).2
   | .nil, s, _ => by simp only [yslR, YsL.labelsR]; exact ⟨rfl, Ext.refl _ s⟩
@@ -746,6 +761,8 @@ theorem resolveA_good : ∀ (y : Ys) (s : St), s.mode = true →
   | .pval _, s, hm => by
     simp only [resolveA, Ys.labelsA, hm, if_true]; exact ⟨rfl, Ext.refl _ s⟩
   | .ofut b _, s, _ => by cases b <;> (simp only [resolveA, Ys.labelsA]; exact ⟨rfl, Ext.refl _ s⟩)
+  | .gco _, s, hm => by
+    simp only [resolveA, Ys.labelsA, hm, if_true]; exact ⟨rfl, Ext.refl _ s⟩
 theorem gatherA_good : ∀ (l : YsL) (s : St), s.mode = true →
     (gatherA l s).1.noEsc = true ∧ Ext evOkA (YsL.labelsA l) s (gatherA l s).2
   | .nil, s, _ => by simp only [gatherA, YsL.labelsA]; exact ⟨rfl, Ext.refl _ s⟩
